@@ -223,6 +223,26 @@ def correspond(ctx):
             ctx.fail("autoshape-readback:" + m.name, f"added MSO_SHAPE.{m.name}, read back {got}", {"member": m.name})
         if len(sh.adjustments) != len(av):
             ctx.disagree("adjustment-count", m.name, len(sh.adjustments), len(av))
+        # the values a fresh shape reports are the definition's defaults - also for the SECOND shape of a type, after the
+        # first one's adjustments were changed (the definition is shared by all shapes of the type, the values are not)
+        dflt = [v / 100000.0 for _, v in av]
+        first = [sh.adjustments[i] for i in range(len(sh.adjustments))]
+        if len(first) == len(dflt) and any(abs(a - b) > 1e-9 for a, b in zip(first, dflt)):
+            ctx.fail("adjustment-defaults:" + m.name, f"a new MSO_SHAPE.{m.name} reports adjustments {first}, the definition's defaults are {dflt}", {"member": m.name})
+        for i in range(len(sh.adjustments)):
+            sh.adjustments[i] = 0.123 + i / 10.0
+        try:
+            sh2 = slide.shapes.add_shape(m, 0, 0, 100, 100)
+            second = [sh2.adjustments[i] for i in range(len(sh2.adjustments))]
+            if len(second) == len(dflt) and any(abs(a - b) > 1e-9 for a, b in zip(second, dflt)):
+                ctx.fail("adjustment-defaults:second-shape", f"a second MSO_SHAPE.{m.name}, added after the first one's adjustments were set, reports {second}; "
+                         f"the definition's defaults are {dflt}", {"member": m.name})
+            if sh2.auto_shape_type is not got:
+                ctx.fail("autoshape-readback:" + m.name, f"a second MSO_SHAPE.{m.name} reads back {sh2.auto_shape_type}", {"member": m.name})
+            sh2._element.getparent().remove(sh2._element)
+            ctx.count("autoshape-second-shape")
+        except Exception as e:  # noqa
+            ctx.fail("autoshape-add-raises:" + m.name, f"a second MSO_SHAPE.{m.name} cannot be added: {type(e).__name__}: {str(e)[:120]}", {"member": m.name})
         sh._element.getparent().remove(sh._element)
     # chart types: writer / PlotTypeInspector inverse
     for ct in XL_CHART_TYPE:
@@ -243,6 +263,29 @@ def correspond(ctx):
         if got != ct:
             ctx.fail("chart-type-readback:" + ct.name, f"added chart {ct.name}, chart.chart_type reads {got}", {"chart": ct.name})
         gf._element.getparent().remove(gf._element)
+    # the same chart-data object used for every chart type of its kind, one after the other
+    shared = {}
+    for ct in XL_CHART_TYPE:
+        kind = "bubble" if "BUBBLE" in ct.name else "xy" if ("XY" in ct.name or "SCATTER" in ct.name) else "cat"
+        if kind not in shared:
+            if kind == "bubble":
+                cd = BubbleChartData(); s_ = cd.add_series("s"); s_.add_data_point(1, 2, 3)
+            elif kind == "xy":
+                cd = XyChartData(); s_ = cd.add_series("s"); s_.add_data_point(1, 2)
+            else:
+                cd = CategoryChartData(); cd.categories = ["a", "b"]; cd.add_series("s", [1, 2])
+            shared[kind] = cd
+        ctx.case(key=("chart-shared-data", ct.name))
+        try:
+            gf = slide.shapes.add_chart(ct, 0, 0, 100, 100, shared[kind])
+        except NotImplementedError:
+            continue
+        got = gf.chart.chart_type
+        if got != ct:
+            ctx.fail("chart-type-readback:shared-data-object", f"added chart {ct.name} from a chart-data object already used for other chart types: "
+                     f"chart.chart_type reads {got}", {"chart": ct.name})
+        gf._element.getparent().remove(gf._element)
+        ctx.count("chart-type-shared-data-object")
     ctx.traces = ctx.evaluations
     ctx.sample({"enum": enums[0]["name"], "members": [(m.name, m.xml_value) for m in enums[0]["members"]][:4], "schema": enums[0]["schema_types"]})
     ctx.sample({"autoshape": autos[12][0].name, "prst": autos[12][1], "avLst": autos[12][2], "standard": presets.get(autos[12][1])})
